@@ -160,7 +160,9 @@ FileObs(f) == [type         |-> f.type,
                numChildren  |-> f.numChildren,
                locationType |-> [i \in Ix(f.ltype) |-> IF f.ltype[i] = "M" THEN "M:" \o ToString(f.lcount[i]) ELSE f.ltype[i]],
                location     |-> LET rk == RowKind(f) IN [r \in Ix(f.rows) |-> IF rk[r] = "C" THEN f.rows[r] ELSE Row(f.rows[r])],
-               gridIndex    |-> [i \in Ix(f.gridIndex) |-> IF f.gridIndex[i] = 0 THEN NoneIdx ELSE ToString(f.gridIndex[i] - 1)],
+               \* replaceNonesWithNonsense: None -> the marker of the first real entry's type; no real entry at all -> NaN
+               gridIndex    |-> [i \in Ix(f.gridIndex) |-> IF f.gridIndex[i] # 0 THEN ToString(f.gridIndex[i] - 1)
+                                                            ELSE IF Len(f.grids) = 0 THEN "nan" ELSE NoneIdx],
                grids        |-> [k \in Ix(f.grids) |-> f.grids[k].raw],
                material     |-> f.material,
                temperatures |-> f.temperatures]
@@ -225,15 +227,25 @@ Ancestors(sn, nc) ==
     IN FoldLeft(step, [anc |-> <<0>>, snS |-> <<sn[1]>>, ncS |-> <<nc[1]>>], [j \in 1..(Len(sn) - 1) |-> j + 1]).anc
 
 (* ------------------------------------------------ the property ------------------------------------------- *)
-(* Clause-wise equality of a loaded state  b  with the expected canonical state  a  (same numbering).  Each clause is
-   type-safe (TLC refuses to compare an integer with a string): payloads are compared only under equal kinds.        *)
-SameShape(a, b)  == Len(a) = Len(b) /\ \A i \in Ix(a) : Len(a[i].kids) = Len(b[i].kids)
-ClauseSet == {"Types", "Names", "Serials", "ChildOrder", "LocKind", "LocValue", "GridOwner", "Grids", "Materials",
+(* Clause-wise equality of a loaded state  b  with the expected state  a.  Nodes are matched by SERIAL NUMBER (unique in
+   a reactor), children and grid owners are named by serial number too, so one misplaced child is one ChildOrder verdict
+   and not a cascade.  With unique serial numbers and both states in canonical numbering, ObsEqual(a, b) <=> a = b up
+   to grid.raw (I5).  Each clause is type-safe (TLC refuses to compare an integer with a string): payloads are compared
+   only under equal kinds.                                                                                              *)
+SnSet(t)    == {t[i].sn : i \in Ix(t)}
+UniqueSn(t) == Cardinality(SnSet(t)) = Len(t)
+\* serial number -> the node, with its children and its grid owner named by serial number
+BySn(t) == LET at == [sn \in SnSet(t) |-> CHOOSE i \in Ix(t) : t[i].sn = sn]
+           IN TLCEval([sn \in SnSet(t) |->
+                 LET nd == t[at[sn]] IN [nd EXCEPT !.kids = [k \in Ix(nd.kids) |-> t[nd.kids[k]].sn],
+                                                   !.lg   = IF nd.lg = 0 THEN 0 ELSE t[nd.lg].sn]])
+SameShape(a, b)  == /\ Len(a) = Len(b) /\ Len(a) >= 1 /\ UniqueSn(a) /\ UniqueSn(b) /\ SnSet(a) = SnSet(b)
+                    /\ a[1].sn = b[1].sn
+ClauseSet == {"Types", "Names", "ChildOrder", "LocKind", "LocValue", "GridOwner", "Grids", "Materials",
               "Temperatures", "SortKeys", "Dimensions", "Composition", "Parameters", "Coordinates", "ResolvedDimensions",
               "Quantities"}
 Holds(c, x, y) == CASE c = "Types"        -> x.ty = y.ty /\ x.cmp = y.cmp
                     [] c = "Names"        -> x.nm = y.nm
-                    [] c = "Serials"      -> x.sn = y.sn
                     [] c = "ChildOrder"   -> x.kids = y.kids
                     [] c = "LocKind"      -> x.lk = y.lk
                     [] c = "LocValue"     -> ((x.lk = y.lk) => (x.loc = y.loc))
@@ -248,7 +260,7 @@ Holds(c, x, y) == CASE c = "Types"        -> x.ty = y.ty /\ x.cmp = y.cmp
                     [] c = "Coordinates"  -> x.oc = y.oc
                     [] c = "ResolvedDimensions" -> x.od = y.od
                     [] c = "Quantities"   -> x.om = y.om
-\* nodes of b (positions) on which clause c fails; the whole state is equal iff the shape agrees and every set is empty
-Failing(c, a, b) == {i \in Ix(a) : ~Holds(c, a[i], b[i])}
-ObsEqual(a, b)   == SameShape(a, b) /\ \A c \in ClauseSet : Failing(c, a, b) = {}
+\* serial numbers of the nodes on which clause c fails (A, B = BySn of the two states)
+FailingSn(c, A, B) == {sn \in DOMAIN A : ~Holds(c, A[sn], B[sn])}
+ObsEqual(a, b)   == SameShape(a, b) /\ LET A == BySn(a) B == BySn(b) IN \A c \in ClauseSet : FailingSn(c, A, B) = {}
 =====================================================================================================
